@@ -925,6 +925,12 @@ func (w *World) runCall(t *core.Task, o *CallObs) {
 		w.S.Go(p.ID+"/canceller", func(*core.Task) {
 			if w.real != nil && p.CancelDelay > 0 {
 				time.Sleep(p.CancelDelay) // free-running world: no scheduler step to land on
+			} else if p.CancelLate && p.CancelDelay > 0 {
+				// Released at a scheduler-chosen step in any case; without this
+				// gate that step is an early one far more often than not (the
+				// canceller competes from the start), with it the instant lands
+				// anywhere in the life of the call.
+				w.S.Gate(p.ID+"/canceller.delay", simhttp.After(time.Now().Add(p.CancelDelay)))
 			}
 			cancel()
 		})
